@@ -288,9 +288,31 @@ func runC18(c *Ctx) {
 	for _, vc := range CallSites(cs, verify) {
 		ok := true
 		for _, lf := range phiLeavesOf(CallRecv(vc)) {
-			if !VRes(0, publicKeyM)(lf) && !VRes(0, signKeyM)(lf) {
-				ok = false
+			if VRes(0, publicKeyM)(lf) || VRes(0, signKeyM)(lf) {
+				continue
 			}
+			// the key chosen by a private helper: key, err := verificationKey(assert, signingKey)
+			if hc, hi, isCall := CallResult(lf); isCall {
+				if h := hc.Common().StaticCallee(); h != nil && h.Pkg == cs.Pkg && len(h.Blocks) > 0 {
+					liftCtx = append(liftCtx, liftFrame{h, hc})
+					okH, n := true, 0
+					for _, hl := range ReturnLeaves(h, hi) {
+						if IsNilConst(hl.Val) {
+							continue // returned next to an error
+						}
+						n++
+						if !VRes(0, publicKeyM)(hl.Val) && !VRes(0, signKeyM)(hl.Val) {
+							okH = false
+						}
+					}
+					liftCtx = liftCtx[:len(liftCtx)-1]
+					if okH && n > 0 {
+						c.touch(h)
+						continue
+					}
+				}
+			}
+			ok = false
 		}
 		c.Check(ok, "asserts.CheckSignature#verifying-key", vc.Pos(), "the verifying key is signingKey.publicKey() or the custom signer's key", "the key used to verify does not come from the signing key / custom signer")
 	}
